@@ -38,6 +38,9 @@ type Op struct {
 	Pad     int      `json:"pad,omitempty"` // every value is padded with this many bytes (large batches)
 	Rep     int      `json:"rep,omitempty"` // the key list is repeated this many times (large batches)
 	GapUs   int      `json:"gap_us,omitempty"`
+	// TimeoutUs > 0: the call runs under a context that expires after this much simulated time
+	// (mode lossy only: a call that gave up may or may not have taken effect).
+	TimeoutUs int `json:"timeout_us,omitempty"`
 }
 
 // Actor is one goroutine with its own rawkv.Client.
@@ -72,6 +75,8 @@ type Scenario struct {
 	Topo   []TopoEv `json:"topo,omitempty"`
 	Net    NetCfg   `json:"net"`
 	TTLRun bool     `json:"ttl_run"`
+	// Shared: all actors use one rawkv.Client (one region cache) instead of one each.
+	Shared bool `json:"shared,omitempty"`
 }
 
 var exactKinds = []simkit.Fate{
@@ -297,6 +302,7 @@ func genScenario(cfg simkit.RunConfig, mode string) *Scenario {
 		nactors = 1 + r.Intn(3)
 	}
 	sc.TTLRun = nactors == 1 && mode == "exact" && r.Intn(3) == 0
+	sc.Shared = nactors > 1 && r.Intn(3) == 0
 	estUs := 0
 	for a := 0; a < nactors; a++ {
 		g := &gen{r: r, sc: sc, gm: map[string]string{}, actor: a, ttlRun: sc.TTLRun}
@@ -322,6 +328,9 @@ func genScenario(cfg simkit.RunConfig, mode string) *Scenario {
 				us += ms * 1000
 			}
 			op := g.op()
+			if mode == "lossy" && r.Intn(12) == 0 {
+				op.TimeoutUs = 500 + r.Intn(20000)
+			}
 			act.Ops = append(act.Ops, op)
 			us += 6000 + op.GapUs
 		}
